@@ -76,7 +76,8 @@ def decode_sv_component(comp):
     return out
 
 
-SUP_MAX_MS = 300      # suppression_interval 0.2 s: the period is drawn from [0.5, 1.5) x interval
+SUP_MAX_MS = 300      # suppression_interval 0.2 s: the period is drawn from [0.5, 1.5) x interval (SVS v1, which the class says it implements)
+SUP_MIN_MS = 100
 
 
 def template_histories(rng):
@@ -93,6 +94,13 @@ def template_histories(rng):
         evs = [('recv', {'kind': 'newer', 'pick': [0.9] * 6, 'delta': [2] * 6}), ('advance', 'at'), ('recv', older), ('idle', 500), ('recv', older), ('idle', 500),
                ('advance', 'at'), ('recv', older), ('idle', 500)]
         out.append({'nodes': nn, 'events': evs, 'last_used': 3, 'publish_in_callback': False, 'template': True})
+    # an outdated vector arrives just before / long before the periodic timer is due; a covering vector follows inside the period
+    eq = {'kind': 'equal', 'pick': [0.9] * 6, 'delta': [1] * 6, 'unknown': None}
+    for nn in (1, 2):
+        for where in ('before', 'small'):
+            evs = [('recv', {'kind': 'newer', 'pick': [0.9] * 6, 'delta': [2] * 6}), ('advance', 'past'), ('advance', where), ('recv', older), ('idle', 40), ('recv', eq),
+                   ('idle', 500)]
+            out.append({'nodes': nn, 'events': evs, 'last_used': 3, 'publish_in_callback': False, 'template': True})
     return out
 
 
@@ -417,6 +425,11 @@ def execute(ctx, hist, rng):
                     if state_before == SvsState.SyncSteady:
                         heard = [accepted_vec] if accepted_vec is not None else []
                         ctx.event('suppression-entered')
+                        # the period armed now lasts 0.5 .. 1.5 suppression intervals, however soon the periodic timer was due
+                        R['sup_start'] = S.now_ms()
+                        d_ = due_ms() - S.now_ms()
+                        if d_ < SUP_MIN_MS - 1.5 or d_ > SUP_MAX_MS + 1.5:
+                            R['viol'].append(('suppression-period-length', f'the suppression timer was armed for {d_:.1f} ms, outside {SUP_MIN_MS}..{SUP_MAX_MS} ms', w))
                     elif accepted_vec is not None and heard is not None:
                         heard.append(accepted_vec)
                         ctx.event('vector-heard-during-suppression')
@@ -459,6 +472,10 @@ def execute(ctx, hist, rng):
                     check_obligations()
                 for t, p in take_emissions():
                     check_emission_content(p, w)
+                    if R.get('sup_start') is not None and heard is not None and 0 <= t - R['sup_start'] < SUP_MIN_MS - 1.5:
+                        R['viol'].append(('suppression-ended-early', f'a sync Interest went out {t - R["sup_start"]:.0f} ms after a suppression period began (nothing was published)', w))
+                if inst.state != SvsState.SyncSuppression:
+                    R['sup_start'] = None
                 heard = None if inst.state != SvsState.SyncSuppression else heard
                 R['pattern'].append('i')
             elif ev[0] == 'pub':
